@@ -54,7 +54,7 @@ _m('half', 'int', 'float')(lambda v: v / 2)
 _m('tenth', 'int', 'float')(lambda v: v * 0.1)
 _m('finc', 'float', 'float')(lambda v: v + 0.25)
 _m('fneg', 'float', 'float')(lambda v: -v)
-_m('fint', 'float', 'int')(lambda v: int(v))
+_m('fint', 'float', 'int')(lambda v: int(max(-1e15, min(1e15, v))))      # stays inside int64 whatever the float (typed state arrays)
 _m('pair', 'int', 'pair')(lambda v: (v, v % 3))
 _m('swap', 'pair', 'pair')(lambda p: (p[1], p[0]))
 _m('fst', 'pair', 'int')(lambda p: p[0])
@@ -131,7 +131,7 @@ _k('rv_nan_fresh', 'rec_nan')(lambda r: float('nan') if r.v % 2 == 0 else 1.0)  
 _k('rv_nanfresh_none', 'rec')(lambda r: float('nan') if r.v % 3 == 0 else (None if r.v % 3 == 1 else 1.0))   # a new nan object each time: its own group under ==
 _k('rn_div3', 'rec')(lambda r: 'run-%d' % (r.n // 3))
 _k('pk0', 'pair')(lambda p: p[0] % 3)
-_k('fk', 'float')(lambda v: int(v) % 3)
+_k('fk', 'float')(lambda v: int(max(-1e15, min(1e15, v))) % 3)
 
 # ---- accumulators ------------------------------------------------------------
 
